@@ -348,7 +348,7 @@ def _color_desc_88(num: int) -> str:
     'g45'
 
     """
-    if not 0 < num < 88:
+    if not 0 <= num < 88:
         raise ValueError(num)
     if num < _CUBE_START:
         return f"h{num:d}"
